@@ -116,9 +116,28 @@ func RunC03(r *sim.Run) {
 		}
 		return obj
 	}
+	// one run in three the cluster's first two versions are written back to back (the
+	// second one disables a server): the controller finds the creation and the update
+	// waiting at the same time
+	w.NoWait = t.Draw(3) == 0
 	if err := w.Apply(build()); err != nil {
+		w.NoWait = false
 		r.Inconclusive("initial apply: " + err.Error())
 		return
+	}
+	if w.NoWait {
+		s := srv[t.Draw(len(srv))]
+		if s.present {
+			s.disabled = true
+			if err := w.Apply(build()); err != nil {
+				s.disabled = false
+			} else {
+				r.Probe("created_and_updated_at_one_instant")
+				r.Logf("spec (at once): %s disabled=true", s.ep)
+			}
+		}
+		w.NoWait = false
+		w.Quiesce()
 	}
 	w.Boundary()
 	w.Advance(50 * time.Millisecond) // first probes
